@@ -3917,7 +3917,12 @@ class Phonopy:
         )
         ph_copy.run_qpoints(d2f.commensurate_points, with_dynamical_matrices=True)
         ph_dict = ph_copy.get_qpoints_dict()
-        d2f.dynamical_matrices = ph_dict["dynamical_matrices"]
+        dynmats = ph_dict["dynamical_matrices"]
+        if self._frequency_scale_factor is not None:
+            # These dynamical matrices are already scaled. The returned instance
+            # inherits frequency_scale_factor and will scale them again.
+            dynmats = dynmats / self._frequency_scale_factor**2
+        d2f.dynamical_matrices = dynmats
         d2f.run()
         ph.force_constants = d2f.force_constants
 
